@@ -85,6 +85,66 @@ class NumAlgebra(Algebra):
             return None
         return P(Fraction(v)) if v else {}
 
+    # domain of the property (properties.jsonl, C18: "bond lengths 0.8-2.5 A, bond angles 20-160 degrees"): ranges of the norms of the
+    # bond vectors and of the cross products of consecutive bonds
+    BOND = (0.8, 2.5)
+    CROSS = (0.8 * 0.8 * math.sin(math.radians(20.0)), 2.5 * 2.5)
+
+    def set_domain(self, pts: List[Vec]) -> None:
+        p1, p2, p3, p4 = pts
+        b1, b2, b3 = self.vsub(p2, p1), self.vsub(p3, p2), self.vsub(p4, p3)
+        self.ranges: Dict[str, Tuple[float, float]] = {}
+        for b in (b1, b2, b3):
+            self.ranges[alg_atom(self, b)] = self.BOND
+        for u, w in ((b1, b2), (b2, b3)):
+            self.ranges[alg_atom(self, self.cross(u, w))] = self.CROSS
+
+    def _lower_bound(self, p: Poly) -> Optional[float]:
+        """lower bound, over the domain, of a monomial in the norms of bonds / consecutive cross products (None: anything else)"""
+        ranges = getattr(self, "ranges", None)
+        if ranges is None or len(p) != 1:
+            return None
+        ((m, c),) = p.items()
+        if not m or c <= 0:
+            return None
+        lo = float(c)
+        for v, x in m:
+            if v not in ranges:
+                return None
+            lo *= (ranges[v][0] if x > 0 else ranges[v][1]) ** x
+        return lo
+
+    def _tiny_lower_bound(self, test: ast.AST, env: Dict[str, Any]) -> Optional[bool]:
+        """True: the test is `N > c` / `N >= c` / `c < N` / `c <= N` and holds on the whole domain (c below the lower bound of the norm
+        monomial N), False: its negation (`N < c` ...) which then fails on the whole domain; None: something else."""
+        if isinstance(test, ast.UnaryOp) and isinstance(test.op, ast.Not):
+            r = self._tiny_lower_bound(test.operand, env)
+            return None if r is None else (not r)
+        if not (isinstance(test, ast.Compare) and len(test.ops) == 1):
+            return None
+        op, a, b = test.ops[0], test.left, test.comparators[0]
+        if isinstance(op, (ast.Lt, ast.LtE)):
+            small, big = a, b
+        elif isinstance(op, (ast.Gt, ast.GtE)):
+            small, big = b, a
+        else:
+            return None
+        try:
+            s, g = self.ev(small, env), self.ev(big, env)
+        except AlgebraError:
+            return None
+        if isinstance(s, Vec) or isinstance(g, Vec):
+            return None
+        if is_const(s) and const_value(s) >= 0:
+            lo = self._lower_bound(g)
+            if lo is not None and const_value(s) < 0.5 * lo:
+                return True  # c < N everywhere on the domain
+        if is_const(g) and const_value(g) >= 0:
+            lo = self._lower_bound(s)
+            if lo is not None and const_value(g) < 0.5 * lo:
+                return False  # N < c nowhere on the domain
+        return None
+
     def ev(self, e: ast.AST, env: Dict[str, Any]) -> Any:
         if isinstance(e, ast.Name):
             if e.id in env:
@@ -99,6 +159,14 @@ class NumAlgebra(Algebra):
             n = self._num(e)
             if n is not None:
                 return n
+        if isinstance(e, ast.IfExp):
+            # `v / |v| if |v| > eps else v` (either orientation) with a tiny eps: on the domain of the property (bond lengths 0.8-2.5 A, no
+            # three consecutive points collinear: every norm the functions take is far above 1e-3) the test holds, the value is the branch
+            # taken.  A threshold that is not tiny, or a test that is not a lower bound on a norm, keeps the abstraction "a positive
+            # multiple of the same vector" (polyalg.join_pos_scaled).
+            side = self._tiny_lower_bound(e.test, env)
+            if side is not None:
+                return self.ev(e.body if side else e.orelse, env)
         if isinstance(e, ast.Call) and not e.keywords:
             fn = _fname(e)
             if fn in _NUMF and e.args:
@@ -129,15 +197,34 @@ def is_guard(st: ast.stmt) -> bool:
     return isinstance(st, ast.If) and not st.orelse and len(st.body) == 1 and isinstance(st.body[0], ast.Return) and _is_fallback_value(st.body[0].value)
 
 
+class NotOneAtan2(AlgebraError):
+    """The function is not `... atan2(y, x) ...` with a single atan2: the whole-circle reading (analyse_circle) applies."""
+
+
+# inverse trigonometric functions and the sign functions that go with them: where the angle is made from the sine / cosine terms
+ANGLE_FUNCS = ("atan2", "arctan2", "acos", "arccos", "asin", "arcsin", "atan", "arctan", "sign", "copysign")
+
+
+def _angle_call(n: ast.AST) -> bool:
+    if not isinstance(n, ast.Call):
+        return False
+    f = n.func
+    name = f.id if isinstance(f, ast.Name) else (f.attr if isinstance(f, ast.Attribute) else None)
+    return name in ANGLE_FUNCS
+
+
 def analyse(fn: ast.FunctionDef, fold: Optional[Callable[[ast.AST], Any]] = None) -> Dict[str, Any]:
     alg = NumAlgebra(fold)
     pnames = [a.arg for a in fn.args.args][:4]
     if len(pnames) != 4:
         raise AlgebraError("torsion function does not take four points")
     pts = {p: Vec(var(f"{p}{ax}") for ax in "xyz") for p in pnames}
+    alg.set_domain([pts[p] for p in pnames])
     at = [c for c in ast.walk(fn) if isinstance(c, ast.Call) and ast.unparse(c.func).endswith(("atan2", "arctan2"))]
-    if len(at) != 1 or len(at[0].args) != 2:
-        raise AlgebraError("expected exactly one atan2(y, x)")
+    in_guard_tests = {id(c) for st in ast.walk(fn) if is_guard(st) for c in ast.walk(st.test)}  # thresholds of early returns (`arcsin(s) < ...`) are the guard rule's
+    others = [c for c in ast.walk(fn) if _angle_call(c) and not any(c is a for a in at) and id(c) not in in_guard_tests]
+    if len(at) != 1 or len(at[0].args) != 2 or others:
+        raise NotOneAtan2("expected exactly one atan2(y, x)" + (f" and no other inverse trigonometric / sign function (found `{ast.unparse(others[0])[:40]}`)" if others and len(at) == 1 else ""))
     env: Dict[str, Any] = dict(pts)
     guards: List[Tuple[ast.If, Dict[str, Any], Dict[str, ast.AST]]] = []
     defs: Dict[str, ast.AST] = {}
@@ -166,7 +253,9 @@ def analyse(fn: ast.FunctionDef, fold: Optional[Callable[[ast.AST], Any]] = None
         else:
             raise AlgebraError(f"assignment outside the straight-line idiom: {ast.unparse(t)[:40]} = {ast.unparse(v)[:40]}")
 
+    envs: List[Tuple[ast.stmt, Dict[str, Any]]] = []  # environment before each statement of the prefix
     for i, st in enumerate(fn.body):
+        envs.append((st, dict(env)))
         if any(c is at[0] for c in ast.walk(st)):
             at_stmt, idx = st, i
             break
@@ -181,7 +270,7 @@ def analyse(fn: ast.FunctionDef, fold: Optional[Callable[[ast.AST], Any]] = None
         else:
             raise AlgebraError(f"statement outside the straight-line idiom: {ast.unparse(st)[:60]}")
     if at_stmt is None or not isinstance(at_stmt, (ast.Assign, ast.AnnAssign, ast.Return)):
-        raise AlgebraError("the atan2 is not the value of an assignment or of a return at the top level of the function")
+        raise NotOneAtan2("the atan2 is not the value of an assignment or of a return at the top level of the function")
     y = alg.ev(at[0].args[0], env)
     x = alg.ev(at[0].args[1], env)
     if isinstance(x, Vec) or isinstance(y, Vec):
@@ -219,6 +308,8 @@ def analyse(fn: ast.FunctionDef, fold: Optional[Callable[[ast.AST], Any]] = None
         "quantities": quantities,
         "tail": list(fn.body[idx + 1 :]),
         "env": env,
+        "envs": envs,
+        "pts": [p1, p2, p3, p4],
     }
 
 
